@@ -61,7 +61,7 @@ func checkC15(c *an.Ctx) {
 	c.Rule("C15.6", "tolerated sentinel (E7 taint + E3): where a caller of Load tolerates an error matching a sentinel of internal/config and uses the returned configuration unconditionally, an error that may match the sentinel (the sentinel itself, an fmt.Errorf %w wrap of one, a result passed on) never crosses a recursive call of the loading functions, and Load returns the non-recursive origin together with the destination configuration")
 	c.Rule("C15.7", "guarded document merges (E6d + library summary): a mergo call of the load scope whose operands are raw documents (maps of interface values) runs under a deferred recover that stores a non-nil error into the function's error result — mergo v0.3.8 panics in reflect when the two documents' map types differ (yaml.v2 vs json/toml)")
 	c.Rule("C15.8", "decode hooks (library contract): a function of the module with the shape of a mapstructure DecodeHookFunc never returns a nil value with a nil error (mapstructure v1.1.2 panics on it for every non-interface target)")
-	c.Rule("C15.9", "format decoders as reviewed (library contract, option table): on a decoder of encoding/json, yaml.v2 or go-toml built in the load scope only Decode and the read-only accessors are called; json.Decoder.UseNumber in particular is reported — json.Number has kind string without being a string, and the duration hook of mapstructure v1.1.2 asserts data.(string) on every string-kind input that is to become a time.Duration, so a bare number in a JSON document panics")
+	c.Rule("C15.9", "format decoders as reviewed (library contract, option table): on a decoder of encoding/json, yaml.v2 or go-toml built in the load scope no configuring call changes the dynamic types a document arrives with: json.Decoder.UseNumber is reported — json.Number has kind string without being a string, and the duration hook of mapstructure v1.1.2 asserts data.(string) on every string-kind input that is to become a time.Duration, so a bare number in a JSON document panics")
 	c.Summaries = append(c.Summaries, "mapstructure v1.1.2 StringToTimeDurationHookFunc: `if f.Kind() != reflect.String {return data}; … time.ParseDuration(data.(string))` — panics for json.Number (read in decode_hooks.go)")
 	c.NotDecided = append(c.NotDecided,
 		"termination and panic-freedom inside yaml.v2, encoding/json, go-toml, mapstructure, text/template and doublestar on adversarial input (their bodies are outside the lint's scope)",
